@@ -24,6 +24,20 @@ LEVEL = "exploration"
 _VLOCK = threading.RLock()
 
 
+def _repo_hash():
+    """Content hash of the build-relevant files of the tree under test only (build.tree_hash also covers /verif/tools and
+    probes, which other people edit while a check runs)."""
+    import hashlib
+    h = hashlib.sha256()
+    for p in build._iter_files(build.REPO):
+        try:
+            with open(p, "rb") as f:
+                h.update(p.encode() + b"\0" + hashlib.sha256(f.read()).digest())
+        except OSError:
+            h.update(p.encode() + b"\0?")
+    return h.hexdigest()
+
+
 def _violation(ctx, key, what, files=None):
     with _VLOCK:                                  # rounds may run in parallel lanes
         return ctx.violation(key, what, files)
@@ -751,10 +765,14 @@ class Stats:
         self.mismatches = 0
         self.client_tsan = 0
         self.hammer_sessions = 0
+        self.lost = 0
+        self.bad_events = 0
+        self.stopped_early = False
+        self.repo_hash = None
         self.tiny = []
 
 
-def run_wave(ctx, st, dm, fl, client_bin, picks, mode, rng, n_bin, where, sc):
+def run_wave(ctx, st, dm, fl, client_bin, picks, mode, rng, n_bin, where, sc, preconnect=False):
     """picks: list of Mod.  The first n_bin are run by the real binary, the others by held python sessions.
     Returns (ok, trouble): trouble = client-side watchdog / connection problems (inconclusive material)."""
     all_ids = sorted(set(m.mid for m in picks))
@@ -764,20 +782,46 @@ def run_wave(ctx, st, dm, fl, client_bin, picks, mode, rng, n_bin, where, sc):
             "TSAN_OPTIONS": "halt_on_error=0:exitcode=0:log_path=%s" % os.path.join(sc.sub("tsan-client"), "c")}
 
     def mk(m):
-        return lambda: sh([client_bin, "--daemon", m.path], cpu=120, wall=240, env=cenv, max_out=64 << 20)
+        return lambda: sh([client_bin, "--daemon", m.path], cpu=120, wall=120, env=cenv, max_out=64 << 20)
 
-    reps, xres, ws = vc.run_wave(dm.vmd_dir, [m.blob for m in pys], mode=mode, delays=delays, timeout=180.0,
-                                 extras=[mk(m) for m in bins])
+    family = "%s%s" % (mode, ",connections made first in one burst" if preconnect else "")
+    reps, xres, ws = vc.run_wave(dm.vmd_dir, [m.blob for m in pys], mode=mode, delays=delays, timeout=120.0,
+                                 extras=[mk(m) for m in bins], preconnect=preconnect, lost_grace=5.0, lost_samples=8)
+    hung_bins = [m for m, r in zip(bins, xres) if r is not None and r.timeout]
+    lost_bins = ()
+    if hung_bins and dm.alive() and vc.nothing_in_service(dm.vmd_dir):
+        # the watchdog only prompted the question; the verdict is the daemon's own statement that it serves nobody
+        with _VLOCK:
+            st.lost += len(hung_bins)
+            st.bad_events += len(hung_bins)
+        _violation(ctx, "session-lost|nano_vm --daemon|%s" % family,
+                   "%d `nano_vm --daemon` client(s) (%s) were still waiting after 120 s although the daemon answers PING and reports "
+                   "no session in service\n%s" % (len(hung_bins), " ".join(m.mid for m in hung_bins), where))
+        xres = [None if (r is not None and r.timeout) else r for r in xres]
+        lost_bins = tuple(hung_bins)
     trouble = []
     ok = True
     daemon_alive = dm.alive()
     with _VLOCK:                                    # lanes share `st`
         st.waves += 1
-        return _account_wave(ctx, st, ws, pys, reps, bins, xres, all_ids, where, daemon_alive, trouble, ok)
+        return _account_wave(ctx, st, ws, pys, reps, bins, xres, all_ids, where, daemon_alive, trouble, ok, family,
+                             [round(d, 3) for d in delays] if mode == "jitter" else "all at the barrier", lost_bins)
 
 
-def _account_wave(ctx, st, ws, pys, reps, bins, xres, all_ids, where, daemon_alive, trouble, ok):
+def _account_wave(ctx, st, ws, pys, reps, bins, xres, all_ids, where, daemon_alive, trouble, ok, family, schedule, lost_bins=()):
     for m, r in zip(pys, reps):
+        if r.lost and daemon_alive:
+            # logical verdict of the wave monitor (tools/vmd_client.py run_wave): the daemon itself says it serves no such session
+            st.sessions += 1
+            st.sessions_py += 1
+            st.lost += 1
+            st.bad_events += 1
+            _violation(ctx, "session-lost|%s" % family,
+                       "a complete, well-formed request of module %s (%s) got neither a reply nor a closed connection: %s\n%s\n"
+                       "modules of the wave (arrival order): %s\nrelease delays (s): %s"
+                       % (m.mid, m.shape, r.lost, where, " ".join(x.mid for x in pys), schedule),
+                       {"module.nvm": m.blob, "wave.txt": "%s\nmodules: %s\ndelays: %s\n" % (where, " ".join(x.mid for x in pys), schedule)})
+            continue
         if r.exc or r.timeout:
             trouble.append("py %s: exc=%s timeout=%s" % (m.mid, r.exc, r.timeout))
             if daemon_alive:
@@ -789,7 +833,10 @@ def _account_wave(ctx, st, ws, pys, reps, bins, xres, all_ids, where, daemon_ali
         if not compare(ctx, m, "py", r.out, r.err_text(), r.exit_code, all_ids, where, detail):
             ok = False
             st.mismatches += 1
+            st.bad_events += 1
     for m, r in zip(bins, xres):
+        if r is None and m in lost_bins:
+            continue
         if r is None or r.timeout:
             trouble.append("bin %s: no result / watchdog" % m.mid)
             if daemon_alive or r is None:
@@ -801,6 +848,7 @@ def _account_wave(ctx, st, ws, pys, reps, bins, xres, all_ids, where, daemon_ali
         if not compare(ctx, m, "bin", r.out, r.err, rc, all_ids, where, "signal=%s" % r.sig):
             ok = False
             st.mismatches += 1
+            st.bad_events += 1
     st.status_samples += ws["status_samples"]
     st.pings += ws["pings"]
     st.pongs += ws["pongs"]
@@ -816,6 +864,7 @@ def _account_wave(ctx, st, ws, pys, reps, bins, xres, all_ids, where, daemon_ali
 
 
 HAMMER_THREADS = 12
+BAD_CAP = 3            # cost cap: after this many lost sessions / wrong results no further round is scheduled
 
 
 def hammer(ctx, st, dm, rng, where, per_thread):
@@ -829,8 +878,8 @@ def hammer(ctx, st, dm, rng, where, per_thread):
 
     def worker(w):
         for m in plan[w]:
-            results[w].append((m, vc.exec_module(dm.vmd_dir, m.blob, 60.0)))
-            if results[w][-1][1].exc and not dm.alive():
+            results[w].append((m, vc.exec_module(dm.vmd_dir, m.blob, 45.0)))
+            if (results[w][-1][1].exc and not dm.alive()) or results[w][-1][1].timeout or st.bad_events >= BAD_CAP:
                 break
 
     ths = [threading.Thread(target=worker, args=(w,), daemon=True) for w in range(HAMMER_THREADS)]
@@ -840,9 +889,19 @@ def hammer(ctx, st, dm, rng, where, per_thread):
         t.join(600)
     trouble = []
     alive = dm.alive()
+    hung = [(m, r) for w in range(HAMMER_THREADS) for m, r in results[w] if r.timeout and r.nbytes == 0]
+    lost = bool(hung) and alive and vc.nothing_in_service(dm.vmd_dir)
+    if lost:
+        with _VLOCK:
+            st.lost += len(hung)
+            st.bad_events += len(hung)
+        _violation(ctx, "session-lost|hammer", "%d short session(s) (%s) were still unanswered after 45 s although the daemon answers PING "
+                   "and reports no session in service\n%s" % (len(hung), " ".join(m.mid for m, _ in hung[:8]), where))
     with _VLOCK:
         for w in range(HAMMER_THREADS):
             for m, r in results[w]:
+                if lost and r.timeout and r.nbytes == 0:
+                    continue
                 if r.exc or r.timeout:
                     trouble.append("hammer %s: exc=%s timeout=%s" % (m.mid, r.exc, r.timeout))
                     if alive:
@@ -854,6 +913,7 @@ def hammer(ctx, st, dm, rng, where, per_thread):
                 detail = "frames=%d eof=%s reset=%s partial=%d" % (len(r.frames), r.eof, r.reset, r.partial)
                 if not compare(ctx, m, "py", r.out, r.err_text(), r.exit_code, all_ids, where, detail):
                     st.mismatches += 1
+                    st.bad_events += 1
     return trouble
 
 
@@ -882,8 +942,9 @@ def run_round(ctx, st, fl, client_bin, sc, rno, picks, mode, yield_on, n_bin, la
                 rng = ctx.rng("wave", rno, kind, wno, attempt)
                 order = list(picks)
                 rng.shuffle(order)
-                where = "round %d (%s, %d clients, %d real binaries), wave %d released by %s" % (rno, kind, len(order), n_bin, wno, wmode)
-                ok, trouble, conc = run_wave(ctx, st, dm, fl, client_bin, order, wmode, rng, n_bin, where, sc)
+                where = "round %d (%s, %d clients, %d real binaries), wave %d released by %s%s" % (
+                    rno, kind, len(order), n_bin, wno, wmode, ", all connections made first in one burst" if wno == 1 else "")
+                ok, trouble, conc = run_wave(ctx, st, dm, fl, client_bin, order, wmode, rng, n_bin, where, sc, preconnect=(wno == 1))
                 troubles.extend(trouble)
                 if conc >= 2:
                     rk = (multiset, wmode, kind)
@@ -897,10 +958,12 @@ def run_round(ctx, st, fl, client_bin, sc, rno, picks, mode, yield_on, n_bin, la
                 if not dm.alive():
                     died = "rc=%s" % dm.returncode()
                     break
-            if not died and st.tiny:
+                if st.bad_events >= BAD_CAP:
+                    break
+            if not died and st.tiny and st.bad_events < BAD_CAP:
                 troubles.extend(hammer(ctx, st, dm, ctx.rng("hammer", rno, kind, attempt),
                                        "round %d (%s), hammer stage: %d clients issuing short sessions back to back" % (rno, kind, HAMMER_THREADS),
-                                       ctx.n(40, 80)))
+                                       ctx.n(24, 60)))
                 if not dm.alive():
                     died = "rc=%s" % dm.returncode()
             stuck = None
@@ -931,7 +994,7 @@ def run_round(ctx, st, fl, client_bin, sc, rno, picks, mode, yield_on, n_bin, la
             _violation(ctx, "daemon-died|" + died, "nano_vmd went away while serving well-formed modules in round %d (%s): %s\n%s"
                           % (rno, kind, died, tail), {"vmd.stderr": tail})
             return
-        if not troubles:
+        if not troubles or st.bad_events >= BAD_CAP:
             return
         if stuck is not None:
             _violation(ctx, "session-stuck|daemon-idle", "round %d (%s): %s -- while the daemon was idle (neither it nor its co-processes consumed CPU time over 6 s, all threads "
@@ -975,6 +1038,7 @@ def _run(ctx, fl, sc):
     shutil.copy2(fl.nano_vm, client_bin)
 
     st = Stats()
+    st.repo_hash = _repo_hash()
     st.tiny = make_modules(ctx, sc, fl, 1, tiny=True)
     rounds = ctx.n(6, 60)
     sizes = [2, 8, 16, 32, 32, 24] if ctx.quick() else [2, 8, 16, 32, 64, 64, 48, 64, 24, 64]
@@ -1003,6 +1067,9 @@ def _run(ctx, fl, sc):
             if rno % lanes != lane:
                 continue
             for yield_on in (False, True):
+                if st.bad_events >= BAD_CAP:
+                    st.stopped_early = True                                # cost cap: enough evidence, report
+                    return
                 run_round(ctx, st, fl, client_bin, sc, rno, picks, mode, yield_on, n_bin, lane)
 
     errs = []
@@ -1021,20 +1088,21 @@ def _run(ctx, fl, sc):
     if errs:
         raise errs[0]
 
-    if ctx.violations and (build.tree_hash() != build.current_hash() or not all(os.path.exists(b) for b in (fl.nano_vmd, fl.nano_vm, fl.nano_cop))):
+    if ctx.violations and (_repo_hash() != st.repo_hash or not all(os.path.exists(b) for b in (fl.nano_vmd, fl.nano_vm, fl.nano_cop))):
         # what was observed cannot be attributed to one definite tree / build: not a verdict
         raise core.Inconclusive("/repo (or the cached build in %s) changed while the check was running; unattributable observations: %s"
                                 % (fl.root, [v[0] for v in ctx.violations][:6]))
     conc = st.max_status_executing
-    ctx.require(st.sessions >= 20, "too few sessions (%d)" % st.sessions)
-    ctx.require(conc >= 2, "the daemon never reported two sessions in service at once (max %d): no concurrency observed" % conc)
-    ctx.require(len(st.round_keys) >= 2, "fewer than two rounds with observed concurrency")
+    ctx.require(ctx.violations or st.sessions >= 20, "too few sessions (%d)" % st.sessions)
+    ctx.require(ctx.violations or conc >= 2, "the daemon never reported two sessions in service at once (max %d): no concurrency observed" % conc)
+    ctx.require(ctx.violations or len(st.round_keys) >= 2, "fewer than two rounds with observed concurrency")
     return ctx.finish({
         "evaluations": st.sessions,
         "distinct_nontrivial": len(st.round_keys),
         "rule": "distinct (module multiset, release mode, yield setting) waves in which the daemon itself reported >= 2 LOAD_EXEC "
                 "sessions in service at one instant (STATUS active_clients minus the STATUS connection minus held connections "
                 "not yet released); waves without observed concurrency are not counted",
+        "lost_sessions": st.lost, "stopped_early_after_%d_bad_sessions" % BAD_CAP: st.stopped_early,
         "hammer_sessions_back_to_back": st.hammer_sessions, "hammer_clients": HAMMER_THREADS,
         "sessions": st.sessions, "sessions_vmd_client_py": st.sessions_py, "sessions_nano_vm_daemon_binary": st.sessions_bin,
         "rounds": rounds, "round_kinds": ["plain", "yield(NLVERIF_YIELD_US=%d)" % YIELD_US], "waves": st.waves,
